@@ -374,7 +374,7 @@ def gen_plant(rng, g, name, nodes, f, price_key, chp=False, simple=False, fuel=T
         # plant without any on/off variable (min_cap 0, no start features): only the ramp rows couple the steps, the first one to last_dispatch
         st = float(pd.Timedelta(to_offset(g['freq'])) / pd.Timedelta(1, g['unit']))
         a['min_cap'] = 0.
-        a['ramp'] = r2(pick(rng, [1., 2., 3.]) * f)
+        a['ramp'] = r2(pick(rng, [1., 2., 3., 0.]) * f)          # (0: the output cannot change at all)
         a['time_already_running'] = r2(st * int(rng.integers(1, 4)))
         a['last_dispatch'] = r2(pick(rng, [1., hi, hi / 2., 0.]) * f)
         simple = True
@@ -394,10 +394,10 @@ def gen_plant(rng, g, name, nodes, f, price_key, chp=False, simple=False, fuel=T
         if rng.random() < 0.4:
             a['running_costs'] = r2(pick(rng, [0.5, 2.]) * f)
         if rng.random() < 0.5:
-            a['ramp'] = r2(pick(rng, [1., 2., 3.]) * f)
+            a['ramp'] = r2(pick(rng, [1., 2., 3., 1., 2., 3., 0.]) * f)
             if a.get('time_already_running') and rng.random() < 0.7:
                 a['last_dispatch'] = r2(pick(rng, [lo if lo > 0 else 1., hi, (lo + hi) / 2.]) * f)
-        if ramp_profiles and rng.random() < 0.35:
+        if ramp_profiles and rng.random() < (0.35 if ramp_profiles is True else float(ramp_profiles)):      # (True: the default share; a number: that share)
             k = int(rng.integers(1, 3))
             lows = sorted(r2(rng.uniform(0.1, 0.6) * hi * f) for _ in range(k))
             a['start_ramp_lower_bounds'] = lows
